@@ -50,6 +50,13 @@ def all_harnesses():
                     {"block": "Xor", "cap": cap, "schedule": s, "tags": tp}, cap == 2 and si == 0 and ti == 4)
                 add(f"c12_burst_c{cap}_s{si}_t{ti}", f"crate::c12::burst_tagger(3, {cap}, {rs3(s)}, 6, {rl(tp)})", "BurstTagger::work",
                     {"block": "BurstTagger", "cap": cap, "schedule": s, "tags": tp}, cap == 2 and si == 1 and ti == 1)
+    for cap in (3, 4):
+        for (d0, d1) in ((2, 1), (2, 0), (1, 0)):
+            for fi, fd in enumerate(([(cap, cap)], [(1, cap), (1, cap), (1, cap)], [(2, 0), (1, 1)])):
+                for ti, tp in enumerate(([1], [2], [3], [2, 3], [0, 3])):
+                    add(f"c12_delayshort_{d0}{d1}_c{cap}_f{fi}_t{ti}", f"crate::c12::delay_shorten(2, 3, {d0}, {d1}, {cap}, {rs_sched(fd)}, {rl(tp)})",
+                        "Delay::work after set_delay", {"block": "Delay", "d0": d0, "d1": d1, "cap": cap, "feeds": fd, "tags": tp},
+                        cap == 4 and (d0, d1) == (2, 1) and fi == 0 and ti in (1, 3))
     for cap in (1, 2):
         for ln in (1, 2, 3):
             for rep in (1, 2, 3):
